@@ -38,6 +38,8 @@ def plan(tier, seed):
     specs = [{"kind": "exhaustive", "part": p, "parts": 8, "maxlen": 6 if tier == "quick" else 8} for p in range(8)]
     n = 24000 if tier == "quick" else 1500000
     specs += [{"kind": "random", "start": p * (n // NSHARDS), "count": n // NSHARDS} for p in range(NSHARDS)]
+    # a day of per-second samples: more than 2**16 points (function, Weaver, slicing and index modes in turn)
+    specs += [{"kind": "huge", "start": 6 * p, "count": 6} for p in range(1 if tier == "quick" else 8)]
     return specs
 
 
@@ -134,8 +136,13 @@ def run_random_case(ctx, kind_, idx):
     from traffic_weaver.process import truncate
     rng = ctx.rng(kind_, idx)
     cid = ctx.case_id(kind_, idx)
-    x, y, meta = R.gen_series(rng, 2, 60, ties_share=0.2, long_share=R.LONG_SHARE)
+    x, y, meta = R.gen_series(rng, 2, 60, ties_share=0.2, long_share=R.LONG_SHARE, real_valued=kind_ == "huge",
+                              force_m=int(rng.integers(66000, 90001)) if kind_ == "huge" else None)
+    if kind_ == "huge":
+        y = y + 1e-3 * np.arange(len(y))        # no two samples alike: a cut taken from the wrong place shows
     mode = ["function", "weaver", "weaver_reshaped", "slice_value", "slice_index", "truncate_index"][int(rng.integers(0, 6))]
+    if kind_ == "huge":
+        mode = ["function", "weaver", "slice_value", "slice_index", "truncate_index", "function"][idx % 6]
     ctx.count("mode:%s" % mode)
     info = {"mode": mode, "m": len(x), "xcls": meta["xcls"]}
     if len(x) <= 12:
@@ -156,6 +163,15 @@ def run_random_case(ctx, kind_, idx):
                     y = np.resize(y, len(x))
                     info["x_storage"] = np.dtype(dt).name
                 l, r, lr, rr, knife = pick_bounds(rng, x)
+                if kind_ == "huge":
+                    # "the last hours of the day": both bounds far into the series
+                    i1 = int(0.995 * len(x))
+                    i0 = min(max(int(0.78 * len(x)), 2 ** 16 + int(rng.integers(0, 300))), i1 - 50)
+                    if rng.integers(0, 2):
+                        l, r, lr, rr, knife = float(x[i0]), float(x[i1]) + 0.25 * float(x[i1 + 1] - x[i1]), False, False, False
+                    else:
+                        span_ = float(x[-1] - x[0])
+                        l, r, lr, rr, knife = (float(x[i0]) - float(x[0])) / span_ + 1e-7, (float(x[i1]) - float(x[0])) / span_ - 1e-7, True, True, False
                 if knife:
                     ctx.discard("ratio_bound_within_rounding_of_a_sample")
                     return
